@@ -101,8 +101,13 @@ func TraverseStringsFunc[T any](v T, fn func(v string) (string, error)) (T, erro
 			copy.Set(copyValue)
 
 		case reflect.Struct:
+			// Start from a shallow copy so that unexported fields (time.Time) survive
+			copy.Set(v)
 			// Loop over each field and call traverseFunc recursively
 			for i := range v.NumField() {
+				if !copy.Field(i).CanSet() {
+					continue
+				}
 				if err := traverseFunc(copy.Field(i), v.Field(i)); err != nil {
 					return err
 				}
